@@ -488,10 +488,36 @@ let run_cache toks =
               (string_of_n !c.Cache.evictions) (string_of_n !c.Cache.high) (string_of_n !c.Cache.low) :: !outs) ops;
     Stdlib.String.concat " | " (Stdlib.List.rev !outs)
 
+(* ---------- migrate: what the destination must contain, from the source image alone ---------- *)
+let run_migrate toks =
+  match toks with
+  | src :: rest ->
+    let img = image_of_string (read_file src) in
+    (match Migration.migrate_spec img (opt "allow" rest "0" = "1") (opt "dstexists" rest "0" = "1") with
+     | Datatypes.Coq_inr e ->
+       let k = match e with
+         | Migration.MCurrentFormat _ -> "current-format" | Migration.MKeyTooLarge -> "key-too-large"
+         | Migration.MAmbiguous -> "ambiguous" | Migration.MStore e -> rerr_str e
+         | Migration.MDestinationExists -> "destination-exists" | Migration.MPanic -> "PANIC" in
+       Stdlib.Printf.sprintf "err %s srcsame=1 published=0 tempfiles=0" k
+     | Datatypes.Coq_inl r ->
+       let b = Stdlib.Buffer.create 256 in
+       Stdlib.List.iter (fun (m : Migration.mrecord) ->
+           let v = match m.Migration.mr_val with
+             | Some bytes -> Stdlib.Printf.sprintf "%016Lx" (fnv_bytes bytes) | None -> "err" in
+           Stdlib.Buffer.add_string b
+             (Stdlib.Printf.sprintf "%s:%s:%s:%s;" (hex_of_bytes m.Migration.mr_key)
+                (string_of_n m.Migration.mr_ts) (string_of_n m.Migration.mr_exp) v))
+         r.Migration.rep_records;
+       Stdlib.Printf.sprintf "ok srcver=%s n=%d amb=%s dstver=3 contents=%016Lx srcsame=1 published=1 tempfiles=0"
+         (string_of_n r.Migration.rep_version) (Stdlib.List.length r.Migration.rep_records)
+         (string_of_n r.Migration.rep_ambiguous) (fnv_string (Stdlib.Buffer.contents b)))
+  | _ -> failwith "migrate: missing source"
+
 let run_note _ = "note"
 
 let handlers : (string * (string list -> string)) list ref =
-  ref [ ("fs", run_fs); ("open", run_open); ("note", run_note); ("codec", run_codec); ("readdev", run_readdev); ("lww", run_lww); ("monitor", run_monitor); ("cache", run_cache) ]
+  ref [ ("fs", run_fs); ("open", run_open); ("note", run_note); ("codec", run_codec); ("readdev", run_readdev); ("lww", run_lww); ("monitor", run_monitor); ("cache", run_cache); ("migrate", run_migrate) ]
 
 
 let () =
